@@ -23,7 +23,7 @@ ASSUMPTIONS = [
     "at most k states more than the minimal reference automaton",
     "element 'metadata' is judged against 'at most one child of any name' (C05), not its empty children section",
 ]
-REQUIRED = ["collecting_calls_with_prefilled_list", "failfast_accept", "failfast_reject", "collecting_accept", "collecting_reject", "oracle_crosschecks"]
+REQUIRED = ["validations_on_reused_parent_object", "collecting_calls_with_prefilled_list", "failfast_accept", "failfast_reject", "collecting_accept", "collecting_reject", "oracle_crosschecks"]
 EXHAUSTIVE = {"quick": False, "thorough": False}
 
 FOREIGN_NAME = "verifForeignElement"
@@ -72,8 +72,20 @@ def plan(tier, seed):
     return shards
 
 
-def _materialise(seq):
-    return [FOREIGN_NAME if a == relang.FOREIGN else a for a in seq]
+def _materialise(seq, rule_names=()):
+    """The one foreign symbol of the reference alphabet stands for every name the rule does not declare: a plainly unknown
+    name, and near misses of declared names (other case, suffix, prefix, padding) chosen by position."""
+    out = []
+    for i, a in enumerate(seq):
+        if a != relang.FOREIGN:
+            out.append(a)
+            continue
+        variants = [FOREIGN_NAME]
+        for nm in rule_names[:3]:
+            variants += [nm.upper(), nm.lower() if nm.lower() != nm else nm.capitalize(), nm + "x", nm[:-1], nm + " "]
+        cand = variants[(i + len(seq)) % len(variants)]
+        out.append(cand if cand not in rule_names and cand != "" else FOREIGN_NAME)
+    return out
 
 
 _EARLIER = []
@@ -85,13 +97,35 @@ def _earlier_entry():
     return _EARLIER[0]
 
 
-def judge(ctx, rule_name, element, seq, expected, stats=None):
+_REUSED = {}
+
+
+def _reused_parent(rule_name, element, names):
+    """One long-lived parent object per (rule, element) whose children are replaced in place between validations: the verdict
+    must depend on the current children only, not on what the same object looked like when it was validated before."""
+    key = (rule_name, element)
+    p = _REUSED.get(key)
+    if p is None:
+        p = _REUSED[key] = emlkit.make_node(rule_name, element, [])
+    old = list(p.children)
+    p.remove_children()
+    emlkit.discard(*old)
+    for c in names:
+        p.add_child(emlkit.Node(c))
+    return p
+
+
+def judge(ctx, rule_name, element, seq, expected, stats=None, reuse=False):
     """Runs the real validator in both modes on one sequence and compares with `expected`."""
-    names = _materialise(seq)
+    names = _materialise(seq, emlkit.spec_of(rule_name).names)
     wit = {"rule": rule_name, "element": element, "seq": list(seq)}
     outcomes = []
     for mode in ("failfast", "collecting"):
-        parent = emlkit.make_node(rule_name, element, names)
+        if reuse:
+            parent = _reused_parent(rule_name, element, names)
+            ctx.count("validations_on_reused_parent_object")
+        else:
+            parent = emlkit.make_node(rule_name, element, names)
         errs = None if mode == "failfast" else []
         prefilled = mode == "collecting" and (len(seq) + len(rule_name)) % 2 == 1
         if prefilled:
@@ -131,7 +165,8 @@ def judge(ctx, rule_name, element, seq, expected, stats=None):
         except Exception as e:
             got = f"crash:{type(e).__name__}@{emlkit.raise_site(e)}"
         finally:
-            emlkit.discard(parent)
+            if not reuse:
+                emlkit.discard(parent)
         outcomes.append(got)
         ctx.evaluated()
         if got in (relang.ACCEPT, relang.REJECT):
@@ -206,10 +241,10 @@ def run_rule(ctx, rule_name, tier, part, parts):
         element = elements[0] if origin == "w" else elements[n % len(elements)]
         if element == "metadata":
             continue  # judged separately below against 'at most one child'
-        out = judge(ctx, rule_name, element, seq, expected, stats)
+        out = judge(ctx, rule_name, element, seq, expected, stats, reuse=((n // 6) % 3 == 0))
         ctx.distinct((rule_name, seq))
         if n % 9973 == 1:
-            ctx.sample({"rule": rule_name, "element": element, "children": _materialise(seq),
+            ctx.sample({"rule": rule_name, "element": element, "children": _materialise(seq, spec.names),
                         "reference": expected, "failfast": out[0], "collecting": out[1]})
     if "metadata" in elements and part == 0:
         for j in range(0, 4):
